@@ -100,8 +100,11 @@ CLAIMS["C06"] = ("proof", "6.C06",
     "Proved: the deep invariant td_okd(t, k) - every TypedDict node of t, at any depth, has between 1 and k keys, none at all for k <= 0 - holds of the result of get_type / get_dict_type for every value, "
     "is preserved by shrink_types / shrink_typed_dict_types (merging any number of types; oversize merges fall back to Dict[str, V]), by every shipped rewriter, by shrink_traced_types and get_updated_definition; "
     "get_dict_type builds a TypedDict only for a non-empty dict with all-string keys and at most k keys; the configured limit is threaded unchanged from Config (defaults proved) through monkeytype.trace / "
-    "trace_calls (the tracer the block runs under carries exactly the given limit) / CallTracer into every get_type call and from cli.get_stub into stub generation. Bounded: the same invariant through the JSON round trip and in rendered class stubs.",
-    TRUST + "the invariant on decoded types follows from the C08 round trip up to structural equality (td_okd respects teq: not proved); class stubs (ReplaceTypedDictsWithStubs) are bounded (runtime/props/c06.py).")
+    "trace_calls (the tracer the block runs under carries exactly the given limit) / CallTracer into every get_type call and from cli.get_stub into stub generation. In the generated classes: "
+    "ReplaceTypedDictsWithStubs (its own methods and the traversal it inherits, verified against this class's contracts) adds one class stub per TypedDict node with exactly that node's fields, so every "
+    "class stub of a FunctionDefinition (from_callable_and_traced_types, get_updated_definition post:class-stubs-size) has between 1 and k fields. Bounded: the same invariant through the JSON round trip and in rendered stub text.",
+    TRUST + "the invariant on decoded types follows from the C08 round trip up to structural equality (td_okd respects teq: not proved); class / attribute stubs created by ReplaceTypedDictsWithStubs are modelled as "
+    "immutable records (a source scan on every run checks that nothing assigns their fields); assumed for stub generation: no *empty* anonymous TypedDict reaches it from a store (none is ever inferred: proved).")
 CLAIMS["C14"] = ("exploration", "6.C14",
     "Bounded: one trace multiset written to real sqlite stores in several orders, with duplicates, split into batches over two connections; `stub` run in fresh interpreters with "
     "different PYTHONHASHSEED, k in {0,3}, default and no rewriter: identical stub up to union-member order. Proved extras: make_query groups by all selected columns (distinct rows) "
@@ -114,8 +117,12 @@ CLAIMS["C11"] = ("exploration", "6.C11",
     "structurally with the rendered type (argument / return / yield positions). Proved part (reported under coverage.obligations): import completeness - get_imports_for_annotation (recursive, all depths), "
     "get_imports_for_signature, _get_optional_elem, ImportMap.merge, _get_import_for_qualname: every (module, name) pair that the rendering rules say an annotation uses - `uses(t, m, n)`: Any / Optional / Union / generics from typing, "
     "a class by the root of its qualified name from its module, Optional[...] for a None default - is in the import map; the relation `uses` itself is validated against the real renderer by the bounded tier "
-    "(each annotation evaluated in a namespace that provides only what uses() lists). The text of an annotation (repr of typing objects, regex stripping) is outside the VC generator and both solvers' string fragments.",
-    TRUST + "the denotation of the text is bounded only; TypedDict replacement (ReplaceTypedDictsWithStubs) is bounded; two recorded known findings (same class name from two modules; field types of generated TypedDict classes not imported).")
+    "(each annotation evaluated in a namespace that provides only what uses() lists). TypedDict replacement: ReplaceTypedDictsWithStubs.rewrite_and_get_stubs and the methods behind it (class-specialised contracts for the inherited "
+    "traversal) are proved to leave no anonymous TypedDict node in the annotation - each becomes a forward reference, its class stub is added with one attribute per field - for every type whose TypedDicts sit under the containers the "
+    "traversal enters (validated on every inferred type by the bounded tier), and to produce annotations within the grammar (wf_ann: forward references as leaves at any depth) that the import-completeness contracts are stated for; "
+    "FunctionDefinition.from_callable / from_callable_and_traced_types are proved on top of it. The text of an annotation (repr of typing objects, regex stripping) and the *names* of the generated classes are outside the VC generator and both solvers' string fragments.",
+    TRUST + "the denotation of the text is bounded only; class names are an uninterpreted function of the hint (uniqueness is not claimed: recorded finding); assumed and listed: the function's own source annotations are within the annotation grammar, "
+    "the function resolves under its module / qualified name, no empty TypedDict comes back from a store; three recorded known findings (same class name from two modules; field types of generated TypedDict classes not imported; generated classes of two functions with the same name).")
 
 CLAIMS["C16"] = ("proof", "6.C16",
     "RemoveImportsTransformer.leave_Import / leave_ImportFrom are proved (nested loop invariants) to remove a name only if the ImportItem it denotes (module, object, alias) is in the move list, "
